@@ -53,7 +53,7 @@ REQUIRED = dict(
              'guillot:alpha-outside', 'guillot:negative-kappa', 'guillot:reinit-judged', 'reinit:other-grid-same-n',
              'reinit:other-planet', 'reinit:planet-set', 'reinit:other-n', 'reinit:first-again', 'grid:integer-decades', 'array:index', 'array:pressure', 'array:all-equal',
              'rodgers:all-equal', 'nlayers:2', 'nlayers:100', 'grid:simple', 'grid:irregular', 'grid:narrow',
-             'via-forward-model', 'via-setter', 'clone:deepcopy', 'controls:given-as-caller-array'])
+             'via-forward-model', 'via-setter', 'clone:deepcopy', 'controls:given-as-caller-array', 'file:temp_units=kK', 'file:temp_units=mK', 'file:temp_units=deg_C'])
 
 NLAYERS = list(range(2, 61)) + [100]
 
@@ -617,24 +617,41 @@ def wl_file(ctx, rng):
     cols = rng.permutation(ncol)
     tcol = int(cols[0])
     pcol = int(cols[1]) if pts is not None else None
+    # the temperature column in another unit (documented keyword temp_units): kelvin multiples, or degrees Celsius --
+    # which the package may refuse (an offset is not a factor) but must not read as kelvin times something
+    tunit = str(rng.choice(['K', 'K', 'K', 'mK', 'kK', 'deg_C', 'Celsius']))
+    tscale, toffset = L.TEMP_UNITS[tunit]
     path = os.path.join(ctx.scratch, 'tp_%d_%d.dat' % (ctx.case['index'], rng.integers(0, 1 << 30)))
     with open(path, 'w') as fh:
         for i in range(skip):
             fh.write('header line %d\n' % i)
         for i, t in enumerate(temps):
             row = ['%.17g' % rng.uniform(0, 10) for _ in range(ncol)]
-            row[tcol] = '%.17g' % t
+            row[tcol] = '%.17g' % ((t - toffset) / tscale)
             if pcol is not None:
                 row[pcol] = '%.17g' % (pts[i] / L.PRESS_UNITS[unit])
             fh.write((',' if comma else ' ').join(row) + '\n')
     ctx.observe('TemperatureFile', 'nlayers:%d' % n)
     ctx.feature(kind='file', nlayers=n, grid=gk, npoints=len(temps), has_p=pts is not None, unit=unit, comma=comma)
     kw = dict(filename=path, skiprows=skip, temp_col=tcol)
+    if tunit != 'K' or rng.random() < 0.3:
+        kw['temp_units'] = tunit
+    ctx.observe('file:temp_units=' + tunit)
     if pcol is not None:
         kw.update(press_col=pcol, press_units=unit)
         if comma:
             kw['delimiter'] = ','
-    tf = TemperatureFile(**kw)
+    if toffset:
+        try:
+            tf = TemperatureFile(**kw)
+        except Exception as e:
+            # degrees Celsius refused at construction: a refusal is what the statement allows for input it cannot take
+            ctx.license(type(e).__name__)
+            ctx.event('file:celsius-refused')
+            return
+        ctx.event('file:celsius-accepted')
+    else:
+        tf = TemperatureFile(**kw)
     tf.initialize_profile(planet, n, P)
     res = access(ctx, tf)
     if not accepted(ctx, res, 'file', npoints=len(temps)):
